@@ -12,9 +12,14 @@ import sys
 import time
 
 VERIF = os.path.dirname(os.path.dirname(os.path.abspath(__file__)))
-REPO = '/repo'
-WORK = os.path.join(VERIF, '.work')
-KVRUN = os.path.join(VERIF, 'harness', 'bin', 'kvrun')
+# The registered checks always run against /repo itself.  The KV_ISO_* variables exist only for tools/try_mutant_iso.sh,
+# which tries a seeded change in a scratch worktree (its own copy of the harness module, its own output directory)
+# so that several can be tried at once without touching /repo or the committed evidence.
+REPO = os.environ.get('KV_ISO_REPO', '/repo')
+HARNESS = os.environ.get('KV_ISO_HARNESS', os.path.join(VERIF, 'harness'))
+OUT = os.environ.get('KV_ISO_OUT', VERIF)
+WORK = os.path.join(OUT, '.work')
+KVRUN = os.path.join(HARNESS, 'bin', 'kvrun')
 KVMODEL = os.path.join(VERIF, 'model', 'kvmodel')
 COQ = os.path.join(VERIF, 'coq')
 NCPU = min(16, os.cpu_count() or 4)
@@ -48,7 +53,7 @@ def workdir(tag):
 
 def build_impl(race=False):
     """go build of the harness against /repo's current working tree (tag verif)"""
-    h = os.path.join(VERIF, 'harness')
+    h = HARNESS
     shutil.copyfile(os.path.join(REPO, 'go.sum'), os.path.join(h, 'go.sum'))
     out = KVRUN + ('-race' if race else '')
     cmd = ['go', 'build', '-tags', 'verif'] + (['-race'] if race else []) + ['-o', out, './cmd/kvrun']
@@ -60,6 +65,8 @@ def build_impl(race=False):
 
 def build_model():
     """make (no-op when up to date) + extraction + ocaml build"""
+    if os.environ.get('KV_ISO_REPO'):
+        return          # scratch runs use the model as built
     if not os.path.exists(os.path.join(COQ, 'Makefile')):
         sh('coq_makefile -f _CoqProject -o Makefile', cwd=COQ)
     p = sh('timeout 3000 make -j%d' % NCPU, cwd=COQ, check=False, timeout=3100)
@@ -356,7 +363,7 @@ def match_known(known, pid, clause, ops=None):
 # evidence / verdict
 
 def write_replay(pid, name, content):
-    d = os.path.join(VERIF, 'replays')
+    d = os.path.join(OUT, 'replays')
     os.makedirs(d, exist_ok=True)
     h = hashlib.sha1(content.encode()).hexdigest()[:12]
     path = os.path.join(d, '%s-%s-%s.txt' % (pid, name, h))
@@ -366,8 +373,8 @@ def write_replay(pid, name, content):
 
 
 def write_evidence(pid, tier, seed, coverage, assumptions, wall, violations):
-    os.makedirs(os.path.join(VERIF, 'evidence'), exist_ok=True)
+    os.makedirs(os.path.join(OUT, 'evidence'), exist_ok=True)
     ev = dict(property_id=pid, tier=tier, seed=seed, level='proof', coverage=coverage,
               assumptions=assumptions, wall_s=round(wall, 2), violations=violations)
-    with open(os.path.join(VERIF, 'evidence', pid + '.json'), 'w') as fh:
+    with open(os.path.join(OUT, 'evidence', pid + '.json'), 'w') as fh:
         json.dump(ev, fh, indent=1)
